@@ -13,6 +13,25 @@
     are total executable functions; they are what is extracted and compared with the real node.  The
     global transition system [g_step] only routes messages between these handlers.
 
+    Where the code differs from docs/Distributed Write Protocol Specification.md (the model follows the code):
+      - coordinator: the document elects "the oldest running node" and has replicas check the sender against it; the code
+        lets any replica that finds itself first in ITS OWN list of available replicas coordinate, and a replica only
+        checks that the sender is among its own available replicas of the partition and that the message's alive_since
+        is not older than the one it recorded (InvalidSender / StaleWrite) - two coordinators can coexist;
+      - a write ahead of the replica's next sequence is buffered (bounded, highest key evicted) and answered only when
+        it is applied, evicted, overtaken (StaleWrite) or expired; the document answers SequenceGap at once and
+        re-buffers failed writes with a retry count (the code answers the error and drops the write);
+      - catch-up: requested from the coordinator of the OLDEST BUFFERED write for [next, oldest - 1], served only below
+        the source's watermark (first sequence < watermark), a request that starts inside a transaction is answered
+        with the tail of that transaction; the document asks the elected coordinator for "all available";
+      - ConfirmTransaction carries transaction id, event ids, versions and a count; a single-event record is not checked
+        against the versions; the document's ConfirmWrite carries a sequence only;
+      - "writes either succeed on quorum or fail completely": nothing is rolled back - the coordinator's local append and
+        the appends of the replicas that answered stay (unconfirmed) when the quorum fails or the coordinator dies, and
+        there is no coordinator-failover state assessment (handle_coordinator_failure does not exist);
+      - the coordinator's set_confirmations covers the event records only (append.offsets), the replicas' also the commit
+        record: on the coordinator a multi-event transaction's commit record keeps the count it was appended with.
+
     What is abstracted (said once):
       - one partition; its replica set [c_reps] is the same on every node (static configuration: node count,
         partition count, replication factor; a node IS its configured index); what diverges between nodes is the
